@@ -45,14 +45,31 @@ theorem residual_stampAll (kind : Kind) (s : K) (cs : List (Cpt K)) (x : Ix → 
     rw [residual_append, ih]
 
 /-- coupling entries live on the inductor's own branch row -/
-theorem lhsSum_coup_node (k : Nat) (y : Ix → K) (m : Nat) (s : K) (coup : List (Nat × K)) :
-    lhsSum (node k) y (coup.map (fun p => (br m, br p.1, -(s * p.2)))) = 0 := by
+theorem lhsSum_coup_node (k : Nat) (y : Ix → K) (m : Nat) (s : K) (coup : List (Nat × K × Option K)) :
+    lhsSum (node k) y (coup.map (fun p => (br m, br p.1, -(s * p.2.1)))) = 0 := by
   induction coup with
   | nil => simp [lhsSum]
   | cons h t ih => simp [lhsSum, ih]
 
-theorem lhsSum_coup_br (m' : Nat) (x : Ix → K) (m : Nat) (s : K) (coup : List (Nat × K)) :
-    lhsSum (br m') (ground x) (coup.map (fun p => (br m, br p.1, -(s * p.2)))) =
+theorem rhsSum_coupIC_node (k : Nat) (m : Nat) (coup : List (Nat × K × Option K)) :
+    rhsSum (node k) (coup.map (fun p => (br m, -(icFlux p.2.1 p.2.2)))) = 0 := by
+  induction coup with
+  | nil => simp [rhsSum]
+  | cons h t ih => simp [rhsSum, ih]
+
+theorem rhsSum_coupIC_br (m' m : Nat) (coup : List (Nat × K × Option K)) :
+    rhsSum (br m') (coup.map (fun p => (br m, -(icFlux p.2.1 p.2.2)))) =
+      if m = m' then -(mutualIC coup) else 0 := by
+  induction coup with
+  | nil => simp [rhsSum, mutualIC, lsum]
+  | cons h t ih =>
+    simp only [List.map_cons, rhsSum, ih, mutualIC, lsum]
+    by_cases hm : m = m'
+    · subst hm; simp [mutualIC]; ring
+    · simp [hm]
+
+theorem lhsSum_coup_br (m' : Nat) (x : Ix → K) (m : Nat) (s : K) (coup : List (Nat × K × Option K)) :
+    lhsSum (br m') (ground x) (coup.map (fun p => (br m, br p.1, -(s * p.2.1)))) =
       if m = m' then -(mutualDrop s x coup) else 0 := by
   induction coup with
   | nil => simp [lhsSum, mutualDrop, lsum]
@@ -72,7 +89,7 @@ theorem stamp_node_row (kind : Kind) (s : K) (c : Cpt K) (x : Ix → K) (k : Nat
   cases c with
   | Ind n1 n2 m l i0 coup =>
     cases kind <;> cases i0 <;>
-      simp [residual, stamp, lhsSum, rhsSum, outflow, twoTerm, branchPattern, lhsSum_append, lhsSum_coup_node, indZ] <;>
+      simp [residual, stamp, lhsSum, rhsSum, rhsSum_append, rhsSum_coupIC_node, outflow, twoTerm, branchPattern, lhsSum_append, lhsSum_coup_node, indZ] <;>
       split_ifs <;> simp_all <;> ring
   | Cap n1 n2 c v0 =>
     cases kind <;> cases v0 <;>
@@ -91,7 +108,7 @@ theorem stamp_branch_row (kind : Kind) (s : K) (c : Cpt K) (x : Ix → K) (m : N
   cases c with
   | Ind n1 n2 m' l i0 coup =>
     cases kind <;> cases i0 <;>
-      simp [lawsAt, laws, residual, stamp, lhsSum, rhsSum, branchPattern, lhsSum_append, lhsSum_coup_br, indZ, vd, lsum,
+      simp [lawsAt, laws, residual, stamp, lhsSum, rhsSum, rhsSum_append, rhsSum_coupIC_br, branchPattern, lhsSum_append, lhsSum_coup_br, indZ, vd, lsum,
             List.filter_cons] <;>
       split_ifs <;> simp_all [lsum] <;> ring
   | Cap n1 n2 c v0 =>
